@@ -3,7 +3,8 @@
 Spec: spec/Calendar.tla (+ spec/Limbs.tla) - reference definitions, written from the calendar rules, the CQL type
       definitions, RFC 4122 and Cassandra's TimeUUIDType comparator: days <-> (y, m, d) <-> 'yyyy-mm-dd' for the years
       1..9999 and the CQL date encoding; nanoseconds <-> <<h, m, s, ns>> <-> 'hh:mm:ss[.fff[fff[fff]]]', the range rule
-      "within one day", the CQL time encoding; the 60-bit count of a version-1 UUID (in byte limbs), its field layout, the
+      "within one day" (also for strings with a fraction of more than nine digits: whatever is accepted lies within the
+      day), the CQL time encoding; the 60-bit count of a version-1 UUID (in byte limbs), its field layout, the
       decode to a unix instant, Cassandra's order (timestamp, then the last 8 bytes as SIGNED bytes), the minimum / maximum
       UUID of an instant.
 TLC : enumerates the cases as states and checks the property's formulas on the specification: the round trips are
@@ -26,7 +27,8 @@ SCOPE = ("ENUMERATED, not proved for all inputs: DATES - quick: 49 chosen years 
          "thorough: additionally EVERY day of the years 1..9999. TIMES - every combination of boundary hours / minutes / "
          "seconds (3 x 2 x 3 quick, 8 x 6 x 6 thorough) x 19 (28) nanosecond values (0, 1, 999, 10^3, 10^6 +- 1, 999999999, "
          "...), integers just outside the day and far outside, negative ones, strings whose fields spell a time beyond the "
-         "day; not arbitrary nanosecond counts in between. TIME-UUIDs - instants on 9 (24) chosen dates from 1582-10-15 to "
+         "day, and 25 strings with a fraction of 10 - 12 digits (judged only by: if accepted, the result lies within the day); not "
+         "arbitrary nanosecond counts in between. TIME-UUIDs - instants on 9 (24) chosen dates from 1582-10-15 to "
          "5236-03-30 x seconds {0, 86399} ({0, 1, 43200, 86399}) x 5 (15) microsecond values, plus the instants where "
          "time_low and time_mid overflow, 2^31 s, 2^32 s and the last instant of the 60-bit range, x 6 (7) nodes x 5 (7) "
          "clock sequences incl. all-0x80 / all-0x7F / all-0xFF bytes; the instant is handed over as a naive datetime, an aware "
@@ -55,7 +57,8 @@ META = {
                   "recomputed with Python integers by the harness, and Civil(n) is compared with datetime.date.fromordinal); for "
                   "the all-days family the text form is printed by the harness from the specification's yyyymmdd number "
                   "(PackedIsText ties the two on the boundary family). Not judged (recorded as open): str(Date) outside the "
-                  "years 1..9999, fractions of 1/2/4/5/7/8 digits, strings like '00:00:60' whose total stays within the day, "
+                  "years 1..9999, fractions of 1/2/4/5/7/8 digits, strings like '00:00:60' whose total stays within the day, whether "
+                  "and as which value of the day a fraction of more than nine digits is accepted, "
                   "unix_time_from_uuid1 beyond 2^32 s (documented float precision), sub-microsecond deviations of the UUID "
                   "timestamp.",
     "design_ref": "5.7 C34",
